@@ -1,6 +1,6 @@
 """C13 Work units only move forward; release removes them; unit IDs are unique.
 
-Spec: specs/WorkUnit.tla (no-crash configuration): every interleaving of 2 client sessions x 2 operations
+Spec: specs/WorkUnit.tla (no-crash configuration): every interleaving of 2 client sessions with 2+1 (quick) / 2+2 (thorough) operations
 (submit/status/cancel/release) with the runner process, the payload and the daemon's goroutines on one unit, at the
 grain of file-system steps; properties StageMonotone, SucceededIsFinal, SizeMonotone (evaluated at the apply step of every
 status rewrite and at every report to a client), CancelStops, ReleaseRemoves, UniqueIDs (second configuration: two ids,
@@ -32,14 +32,35 @@ def variant(wd, name, repl, inv):
     return inv
 
 
+def _keep_evidence(replay):
+    """A --replay run re-executes one case: it must not replace the evidence of the last full run."""
+    path = os.path.join(vlib.VERIF, "evidence", PID + ".json")
+    return (path, open(path).read()) if replay and os.path.exists(path) else None
+
+
+def _restore_evidence(kept):
+    if kept:
+        with open(kept[0], "w") as f:
+            f.write(kept[1])
+
+
 def run(tier, seed, replay=None):
+    kept = _keep_evidence(replay)
+    try:
+        return _run(tier, seed, replay)
+    finally:
+        _restore_evidence(kept)
+
+
+def _run(tier, seed, replay=None):
     wd = vlib.workdir(PID)
     v = vlib.Verdict(PID, tier, seed)
-    r = vlib.tlc_must_pass("WorkUnit", "WorkUnit_quick.cfg", wd, timeout=2400, heap="10g")
+    cfg = "WorkUnit_quick.cfg" if tier == "quick" else "WorkUnit_full.cfg"   # sessions x operations: 2+1 / 2+2 (and 2 output chunks)
+    r = vlib.tlc_must_pass("WorkUnit", cfg, wd, timeout=2400, heap="10g")
     r2 = vlib.tlc_must_pass("WorkUnit", "WorkUnit_ids.cfg", wd, timeout=1200)
     variants = {"CancelKeepsSucceeded=FALSE (the repaired defect)":
                 variant(wd, "wu_cancel_asis.cfg", [("CancelKeepsSucceeded = TRUE", "CancelKeepsSucceeded = FALSE")], "SucceededIsFinal")}
-    wit = vlib.witnesses("WorkUnit", "WorkUnit_quick.cfg", ["W_NoSucceeded", "W_NoCanceled", "W_NoRelease", "W_NoKilled"], wd)
+    wit = vlib.witnesses("WorkUnit", "WorkUnit_quick.cfg", ["W_NoCanceled", "W_NoRelease"] if tier == "quick" else ["W_NoSucceeded", "W_NoCanceled", "W_NoRelease", "W_NoKilled"], wd)
 
     rec = vlib.build_receptor()
     vd = vlib.build_harness("vd")
@@ -64,7 +85,7 @@ def run(tier, seed, replay=None):
         if t.ok:
             traces = ex["status_files"]
         elif "Postcondition TraceAccepted" in t.output or t.violated:
-            if not res["violations"]:
+            if not [x for x in res["violations"] if x["sig"].startswith("C13:status-file-")]:
                 v.violation("C13:status-trace-rejected", "TLC rejected the status-file event stream of the units after about %d steps" % t.depth,
                             {"norm": ex["norm_file"], "seed": seed})
         else:
@@ -75,7 +96,8 @@ def run(tier, seed, replay=None):
         ut = {"events": ex["unit_trace_events"], "accepted": t.ok, "depth": t.depth, "wall_s": round(t.wall, 1)}
         if not t.ok:
             if "Postcondition UnitTraceAccepted" in t.output:
-                if not res["violations"]:
+                # a rejection is a violation of its own unless a rewrite violation already reported explains it
+                if not [x for x in res["violations"] if x["sig"].split(":")[1].startswith(("stage-", "succeeded-", "size-", "status-file-"))]:
                     v.violation("C13:unit-trace-rejected", "TLC rejected the stream of status rewrites after %d events: not a behaviour of WorkUnit.tla" % max(0, t.depth - 1),
                                 {"trace": ex["unit_trace_file"], "seed": seed})
             else:
@@ -91,7 +113,7 @@ def run(tier, seed, replay=None):
                 "observed in this run",
         "samples": res["samples"][:3], "exhaustive": False,
         "state_paths": ex.get("state_paths"), "counters": c, "trace_validation": tv, "unit_rewrite_trace_validation": ut,
-        "tlc": [{"spec": "WorkUnit.tla", "cfg": "WorkUnit_quick.cfg", "generated": r.generated, "distinct": r.distinct, "depth": r.depth, "wall_s": round(r.wall, 1)},
+        "tlc": [{"spec": "WorkUnit.tla", "cfg": cfg, "generated": r.generated, "distinct": r.distinct, "depth": r.depth, "wall_s": round(r.wall, 1)},
                 {"spec": "WorkUnit.tla", "cfg": "WorkUnit_ids.cfg", "generated": r2.generated, "distinct": r2.distinct, "depth": r2.depth, "wall_s": round(r2.wall, 1)}],
         "variants_violated": variants, "witnesses": wit, "notes": v.notes,
     }
